@@ -202,3 +202,13 @@ Theorem C06_slot_discipline :
    && forallb (fun r => existsb (fun fc => String.eqb (fst (fst r)) (fst fc)) slot_ctor_files) slot_ctor_reviewed) = true.
 Proof. exact slot_discipline. Qed.
 Print Assumptions C06_slot_discipline.
+
+(** the per-step temporaries that the errored path still reads (tracking cut
+    adds to energy_deposition; LocateAlive reads secondaries) are cleared by
+    PreStepExecutor on every path a non-inactive track can take *)
+Theorem C06_errored_path_clean :
+  (forallb (fun f => mem f (inter init_primary_writes init_secondary_writes) || mem f prestep_clears) errored_path_reads
+   && subset prestep_cleared_temps prestep_clears
+   && subset prestep_cleared_temps temp_ok) = true.
+Proof. exact errored_path_clean. Qed.
+Print Assumptions C06_errored_path_clean.
